@@ -3,16 +3,16 @@ CONSTANTS
   ClearCountsRows = TRUE
   PlainNewline = TRUE
   QuietClears = FALSE
-  Flags <- NoFlags
-  Verbs <- NoFlags
-  QuietOps = FALSE
+  Flags <- FlagsQ
+  Verbs <- VerbsQ
+  QuietOps = TRUE
   W = 4
-  Lens <- LensMid
-  Pairs <- PairsSmall
-  MaxN = 2
-  MaxSections = 2
-  Depth = 8
-  Modes <- AnsiOnly
+  Lens <- LensSmall
+  Pairs <- PairsNone
+  MaxN = 1
+  MaxSections = 3
+  Depth = 7
+  Modes <- MCModes
   Pres <- OnePre
 VIEW HView
 INVARIANT ScreenMatches
@@ -21,3 +21,4 @@ INVARIANT NoControl
 INVARIANT Coherent
 INVARIANT CursorBelow
 INVARIANT TermOK
+INVARIANT Emit
